@@ -47,6 +47,32 @@ def main():
         finally:
             sh("git -C %s checkout -- ." % REPO)
             sh("git -C %s clean -fdq -- crates" % REPO)
+    # confirmed seeded changes from sub-agents
+    import glob
+    for d in sorted(glob.glob(os.path.join(VERIF, "seeded", "*"))):
+        name = "seed:" + os.path.basename(d)
+        if filt and not any(f in name for f in filt):
+            continue
+        meta = json.load(open(os.path.join(d, "meta.json")))
+        det = meta.get("detect")
+        if not det:
+            continue
+        r = sh("git -C %s apply %s" % (REPO, os.path.join(d, "patch.diff")))
+        if r.returncode != 0:
+            print("FAIL %s: patch does not apply (the tree moved on?): %s" % (name, r.stdout[:200])); bad += 1; continue
+        try:
+            r = sh("./check %s --tier quick" % det["check"], cwd=VERIF)
+            caught = r.returncode == 1 and "VIOLATION property=%s" % det["check"] in r.stdout
+            if det["expect"] == "violation":
+                ok = caught
+            else:
+                ok = r.returncode in (0, 1)
+            print("%s %s [%s expects %s] rc=%d%s" % ("ok  " if ok else "FAIL", name, det["check"], det["expect"], r.returncode, " (now caught)" if det["expect"] == "missed" and caught else ""))
+            if not ok:
+                bad += 1
+                print("\n".join("      " + l for l in r.stdout.splitlines()[-6:]))
+        finally:
+            sh("git -C %s checkout -- ." % REPO)
     print("selftest: %d failures" % bad)
     return 1 if bad else 0
 
